@@ -136,7 +136,7 @@ def check_c04_ascii(cx, chk, insens_names=("parse_character_literal_insensitive"
             else:
                 chk.ok("C04.ascii", tag, {"fn": short(p), "matcher": v, "guard": "is_ascii(%s)" % mir.show(X),
                                           "emitted": "to_ascii_lowercase of the same literal"})
-    chk.floor("C04.ascii", "generator sites selecting an insensitive matcher", sites, 2)
+    chk.floor("C04.ascii", "generator sites selecting a matcher that relies on Ascii(literal)", sites, 1)
 
 
 def strip_deref_calls(e):
